@@ -287,13 +287,21 @@ def check_C08(tier, seed, rest):
 # ------------------------------------------------------------------------------------------
 # sequence level (engine B: LexSpec.tla + replay) and trace level (engine T: LexTrace.tla)
 
+def lex_corpus(tier, seed):
+    """sequence-level engines enumerate every input per definition: fewer definitions, deeper inputs"""
+    if tier == "quick":
+        return base_corpus(tier, seed)
+    import extract
+    return corpus.shape_corpus() + corpus.random_corpus(seed, 120) + extract.repo_defs()[:60]
+
+
 def engine_b(tier, seed, name="base", defs=None, cfgs=None):
     from lexrun import lex_run
     if defs is None:
-        defs = base_corpus(tier, seed)
+        defs = lex_corpus(tier, seed)
     if tier == "quick":
         return lex_run(name, defs, tier, seed, cfgs or ALL_CFGS, 4, 4)
-    return lex_run(name, defs, tier, seed, cfgs or ALL_CFGS, 6, 5)
+    return lex_run(name, defs, tier, seed, cfgs or ALL_CFGS, 5, 5)
 
 
 def engine_t(tier, seed, name="base", defs=None, cfgs=None):
